@@ -49,7 +49,8 @@ OP_TIMEOUT_S = float(os.environ.get("VERIF_OP_TIMEOUT_S", "20"))
 class OpTimeout(Exception):
     pass
 
-A_VALUES = [-2.0, 0.0, 1.0, 3.5, -1.0]
+A_VALUES = [-2.0, 0.0, 1.0, 3.5, -1.0, 1.0 / 3000.0]      # 1/3000: a small first knot that is not a multiple of 1e-18 (the evaluators
+#                                                           round their sample parameters to 18 decimals - below the first knot)
 L_VALUES = [0.5, 1.0, 2.0, 4.0]
 BASELINE = {"span": "linear", "evaluator": "default", "normalize": True, "aL": [[0.0, 1.0]] * 3, "num_procs": 1,
             "sched": 0, "chunk": "default", "faults": []}
@@ -558,6 +559,12 @@ def execute_workload(script, cfg):
                         continue
                     obj.sample_size = op["n"]
                     tgt = obj
+                if any(abs(a_ - 1.0 / 3000.0) < 1e-15 for a_, _ in aL):
+                    # in/out of a voxel is a discontinuous function of the sampled points: with a knot range whose end points are
+                    # not exactly representable the points differ from the normalised ones in the last bits and a point ON a voxel
+                    # face may change sides - not a dependence on the configuration the property is about
+                    out.append(["not_compared"])
+                    continue
                 vkw = {}
                 if op.get("pad"):
                     vkw[op["pad"][0]] = op["pad"][1]
@@ -706,6 +713,8 @@ def _first_mismatch(script, base, obs, cfg):
         if tainted and op["op"] == "ctess" and not (op["force"] and op["delta"]):
             # the baseline performed a tessellation that the faulted run legitimately did not: a later call that re-uses
             # cached results / element deltas has different inputs. Forced calls with delta=True recompute everything.
+            continue
+        if b[0] == "not_compared" or o[0] == "not_compared":
             continue
         if b[0] == "skip" or o[0] == "skip":
             if b[0] != o[0]:
